@@ -51,6 +51,19 @@ var checks = map[string]Check{
 			for _, ev := range evs {
 				js = append(js, sched("c02_live", "proto=raw,calls=1,wait=chan,event="+ev, b, 16))
 			}
+			// local Close and a connection loss at once
+			bc := sched("c02_live", "proto=raw,calls=1,event=bothclose", 1, 16)
+			bc.Budget = 150
+			if tier == "thorough" {
+				bc.Bound = 2
+				bc.Budget = 600
+			}
+			js = append(js, bc)
+			// calls answered with error replies (empty body: unknown route, undecodable argument, handler error, panic,
+			// vetoes) complete as well, on every protocol
+			for _, pr := range []string{"raw", "json", "pb", "thrift", "http"} {
+				js = append(js, sched("c04_live", "proto="+pr+",mode=cause", 0, 1))
+			}
 			// two calls in flight that deliver to one shared completion channel (capacity = number of calls)
 			js = append(js, sched("c02_live", "proto=raw,calls=2,shared=1,event=none", 0, 4))
 			if tier == "thorough" {
@@ -82,6 +95,14 @@ var checks = map[string]Check{
 			if tier == "thorough" {
 				b = 3
 			}
+			// a running handler that waits for its session's close notification (which fires when the close begins)
+			cn := sched("c08", "dir=in,closer=session,yields=0,nested=closenotify", 1, 8)
+			if tier == "thorough" {
+				cn.Bound = 2
+				cn.Shards = 16
+				cn.Budget = 300
+			}
+			js = append(js, cn)
 			for _, k := range []string{"close_vs_rclose", "close_vs_cut", "close_vs_close", "setid_vs_setid", "takeover_vs_close", "rename_vs_takeover"} {
 				j := sched("c07_race", "kind="+k, b, 4)
 				if tier == "thorough" {
@@ -151,7 +172,7 @@ var checks = map[string]Check{
 	},
 	"C08": {
 		Level:       "model_checking",
-		Rule:        "stateless DFS over all placements (interleavings up to the preemption bound) of Session.Close / Peer.Close relative to handler entry, handler steps, reply write and reply arrival, for a call in flight inbound, outbound or both, and for an inbound handler that itself calls or pushes to the other side before returning (raw protocol; inbound and outbound also over json, pb and thrift-binary); event order is part of the explored state; oracle from the event log",
+		Rule:        "stateless DFS over all placements (interleavings up to the preemption bound) of Session.Close / Peer.Close relative to handler entry, handler steps, reply write and reply arrival, for a call in flight inbound, outbound or both, and for an inbound handler that itself calls or pushes to the other side, or waits for the session's close notification, before returning; Close racing a connection loss while a call of its own side is pending (raw protocol; inbound and outbound also over json, pb and thrift-binary); event order is part of the explored state; oracle from the event log",
 		Assumptions: baseAssumptions,
 		Jobs: func(tier string) []Job {
 			var js []Job
@@ -190,7 +211,7 @@ var checks = map[string]Check{
 			}
 			// the running handler itself calls / pushes to the other side before it returns (the reply of that nested
 			// call arrives while Close is waiting for the handler)
-			for _, n := range []string{"call", "push"} {
+			for _, n := range []string{"call", "push", "closenotify"} {
 				j := sched("c08", "dir=in,closer=session,yields=0,nested="+n, 1, 16)
 				if tier == "thorough" {
 					j.Bound = 2
@@ -198,6 +219,15 @@ var checks = map[string]Check{
 				}
 				js = append(js, j)
 			}
+			// Close is waiting for a call of its own side when the connection is lost: the call ends with a connection
+			// error and Close returns
+			bc := sched("c02_live", "proto=raw,calls=1,event=bothclose", 1, 16)
+			bc.Budget = 150
+			if tier == "thorough" {
+				bc.Bound = 2
+				bc.Budget = 600
+			}
+			js = append(js, bc)
 			// the other wire protocols (a reply may be written in several pieces)
 			for _, pr := range []string{"json", "pb", "thrift"} {
 				for _, d := range []string{"in", "out"} {
@@ -292,7 +322,15 @@ var checks = map[string]Check{
 				sq.EnvOnly = true
 				js = append(js, sq)
 			}
-			js = append(js, Job{Mode: "enum", Name: "c04_frames", Shards: 4})
+			// the framework failure causes again with one preemption (the reply may be handled before the caller's
+			// write call has returned)
+			cb1 := sched("c04_live", "proto=raw,mode=cause", 1, 4)
+			if tier == "thorough" {
+				cb1.Bound = 2
+				cb1.Shards = 16
+				cb1.Budget = 300
+			}
+			js = append(js, cb1, Job{Mode: "enum", Name: "c04_frames", Shards: 4})
 			// every handler outcome (result, status, unencodable result, panic, unknown route) through every filter pipe
 			// over raw/json/pb/thrift/http: the caller sees the handler's / the framework's status
 			js = append(js, sched("c12_live", "", 0, 1))
